@@ -567,6 +567,11 @@ def translate():
     notes.append("translator: GenAbc.v %s (%s)" % (
         "rewritten" if changed else "unchanged",
         ", ".join("%s K=%d str=%s" % (a["alphabet"], a["K"], bytes(a["str"]).decode("latin-1")) for _, a in abcs)))
+    notes.append("translator: dispatch encode arms (x86_64) %s default %s; avx2 loop `i+32 %s l` encoded=set1(K%s); "
+                 "sse2 loop `i+16 %s l` encoded=set1(K%s)" % (
+                     " ".join("%s->%s" % t for t in dispatch[0]) or "-", dispatch[1],
+                     "<" if kernels["avx2"]["strict"] else "<=", "-1" if kernels["avx2"]["init_minus_one"] else "",
+                     "<" if kernels["sse2"]["strict"] else "<=", "-1" if kernels["sse2"]["init_minus_one"] else ""))
     return dict(ok=not errors, errors=errors, notes=notes)
 
 
